@@ -1,4 +1,5 @@
 SPECIFICATION Spec
 CONSTANTS MaxLen = 3
           ClipBug = FALSE
+          FrozenBug = FALSE
 INVARIANT Emit
